@@ -3,6 +3,7 @@ package c20
 import (
 	"bytes"
 	"fmt"
+	"os"
 	"regexp"
 	"sort"
 	"strings"
@@ -16,7 +17,9 @@ import (
 	"github.com/nspcc-dev/neo-go/pkg/core/state"
 	"github.com/nspcc-dev/neo-go/pkg/core/statesync"
 	"github.com/nspcc-dev/neo-go/pkg/core/storage"
+	"github.com/nspcc-dev/neo-go/pkg/core/transaction"
 	"github.com/nspcc-dev/neo-go/pkg/io"
+	"github.com/nspcc-dev/neo-go/pkg/neotest"
 	"github.com/nspcc-dev/neo-go/pkg/neotest/chain"
 	"github.com/nspcc-dev/neo-go/pkg/util"
 	"github.com/nspcc-dev/neo-go/verifharness/vlib/ev"
@@ -67,6 +70,7 @@ type trieData struct {
 	list  []util.Uint256 // sorted
 	items []storage.KeyValue
 	multi int // nodes reachable by more than one path
+	twins int // branch nodes with two equal children (the same sub-trie under two nibbles)
 }
 
 type srcChain struct {
@@ -107,8 +111,31 @@ func buildSource(t *testing.T, idx, blocks, interval, mtb int) *srcChain {
 		c.StateSyncInterval = interval
 		c.P2PStateExchangeExtensions = true
 	}
-	s.h = vchain.BuildHistory(t, vchain.HistoryCfg{Idx: idx, Blocks: blocks, Proto: s.proto, PName: fmt.Sprintf("statesync-I%d-mtb%d", interval, mtb)})
+	base := blocks * 2 / 5
+	s.h = vchain.BuildHistory(t, vchain.HistoryCfg{Idx: idx, Blocks: base, Proto: s.proto, PName: fmt.Sprintf("statesync-I%d-mtb%d", interval, mtb)})
 	if s.h.P.Rejected != nil {
+		return s
+	}
+	// Accounts whose keys differ in one nibble and whose balances are equal:
+	// the same sub-trie hangs under two nibbles of one branch node, i.e. MPT
+	// nodes reachable by more than one path (as with equal values under
+	// sibling contract keys, which the generated history also produces).
+	p := s.h.P
+	for round := 0; round < 2 && p.Rejected == nil; round++ {
+		var txs []*transaction.Transaction
+		for _, u := range p.Users {
+			if u.Blocked || len(txs) >= 3 {
+				continue
+			}
+			to := util.Uint160{byte(0x10 * (len(txs) + 1)), 0xcc + byte(round)}
+			txs = append(txs, p.Call("gas-transfer-twin", []neotest.Signer{u.S}, p.GasH, "transfer", u.Hash(), to, int64(4242), nil))
+		}
+		p.AddBlock(txs...)
+	}
+	for len(p.Raw) < blocks && p.Rejected == nil {
+		p.Step()
+	}
+	if p.Rejected != nil {
 		return s
 	}
 	bc := s.h.P.BC
@@ -142,6 +169,21 @@ func (s *srcChain) trie(p uint32) *trieData {
 	td := &trieData{root: s.hdr[p+1].PrevStateRoot, nodes: map[util.Uint256][]byte{}}
 	visits := map[util.Uint256]int{}
 	err := s.h.P.BC.GetStateSyncModule().Traverse(td.root, func(n mpt.Node, nb []byte) bool {
+		if _, seen := td.nodes[n.Hash()]; !seen {
+			if br, ok := n.(*mpt.BranchNode); ok {
+				ch := map[util.Uint256]bool{}
+				for _, c := range br.Children {
+					if c.Type() == mpt.EmptyT {
+						continue
+					}
+					if ch[c.Hash()] {
+						td.twins++
+						break
+					}
+					ch[c.Hash()] = true
+				}
+			}
+		}
 		td.nodes[n.Hash()] = bytes.Clone(nb)
 		visits[n.Hash()]++
 		return false
@@ -189,6 +231,10 @@ type syncCase struct {
 	Flush   int            `json:"flush_permille"`
 	Record  bool           `json:"record"`
 	Feed    int            `json:"blocks_after_sync"`
+	Late    bool           `json:"restart_when_trie_nearly_complete"`
+	Backend string         `json:"backend"`        // mem | bolt | level
+	Trusted uint32         `json:"trusted_header"` // 0: headers are synchronised from genesis
+	GC      int            `json:"gc_period"`      // GarbageCollectionPeriod of the syncing node (0: default)
 }
 
 type syncer struct {
@@ -215,13 +261,58 @@ type syncer struct {
 	compared int
 	jumpBase int // batches recorded before the call that triggered the jump
 	stages   []string
+	soft     []*outcome // violations after which the run can go on
+	lateDone bool
+	dir      string // database directory of a disk backend
 }
 
-func nodeCfg(src *srcChain, mode string) func(*config.Blockchain) {
+// newStore creates the store of a syncing node.
+func newStore(sc syncCase) (*vchain.RecStore, string, error) {
+	dir := ""
+	if sc.Backend != "" && sc.Backend != "mem" {
+		d, err := os.MkdirTemp("", "c20-node-")
+		if err != nil {
+			return nil, "", err
+		}
+		dir = d
+	}
+	inner, err := vchain.NewBackend(sc.Backend, dir)
+	if err != nil {
+		return nil, dir, err
+	}
+	return vchain.NewRecStore(inner, sc.Record), dir, nil
+}
+
+// dispose closes the node and removes its database.
+func (s *syncer) dispose() {
+	s.close()
+	_ = s.st.RealClose()
+	if s.dir != "" {
+		_ = os.RemoveAll(s.dir)
+	}
+}
+
+func (s *syncer) softViolation(sig, detail string) {
+	for _, o := range s.soft {
+		if o.sig == sig {
+			return
+		}
+	}
+	s.soft = append(s.soft, &outcome{sig, detail})
+}
+
+func nodeCfg(src *srcChain, sc syncCase) func(*config.Blockchain) {
+	mode := sc.Mode
 	return func(c *config.Blockchain) {
 		src.proto(c)
 		c.KeepOnlyLatestState = true
 		c.RemoveUntraceableBlocks = true
+		if sc.Trusted > 0 {
+			c.TrustedHeader = config.HashIndex{Hash: src.hdr[sc.Trusted].Hash(), Index: sc.Trusted}
+		}
+		if sc.GC > 0 {
+			c.GarbageCollectionPeriod = uint32(sc.GC)
+		}
 		if mode == "storage" {
 			c.P2PStateExchangeExtensions = false
 			c.NeoFSStateSyncExtensions = true
@@ -234,7 +325,7 @@ func nodeCfg(src *srcChain, mode string) func(*config.Blockchain) {
 func newSyncer(t testing.TB, run *ev.Run, sc syncCase, src, other *srcChain, st *vchain.RecStore) *syncer {
 	s := &syncer{t: t, run: run, sc: sc, src: src, other: other, st: st, r: rng.New(sc.Stream),
 		restarts: map[string]int{}, wrong: map[string]int{}, rem: sc.Remote, jumpBase: -1}
-	s.cfg = nodeCfg(src, sc.Mode)
+	s.cfg = nodeCfg(src, sc)
 	s.p = sc.Remote / uint32(src.I) * uint32(src.I)
 	s.td = src.trie(s.p)
 	s.alt = src.trie(s.p - 1)
@@ -254,12 +345,12 @@ func (s *syncer) witness() map[string]any {
 	}
 	var errs []string
 	if s.logs != nil {
-		for _, e := range s.logs.TakeAll() {
+		for _, e := range s.logs.All() {
 			errs = append(errs, fmt.Sprintf("%s %v", e.Message, e.ContextMap()))
 		}
 	}
 	return map[string]any{"case": s.sc, "sync_point": s.p, "interval": s.src.I, "max_traceable": s.src.mtb, "source_height": s.src.n,
-		"trie_nodes": len(s.td.nodes), "trie_nodes_with_several_paths": s.td.multi, "operations": ops, "node_error_log": errs}
+		"trie_nodes": len(s.td.nodes), "trie_nodes_with_several_paths": s.td.multi, "branches_with_equal_children": s.td.twins, "operations": ops, "node_error_log": errs}
 }
 
 func (s *syncer) stage() string {
@@ -287,20 +378,26 @@ func (s *syncer) open(where string) *outcome {
 	_, pv := guard(func() error { s.bc, s.logs, e = openNode(s.t, s.cfg, s.st); return nil })
 	if pv != nil {
 		s.bc = nil
-		return &outcome{"sync:node-start-panics:" + where + ":" + normMsg(pv), fmt.Sprint(pv)}
+		return &outcome{"sync:node-start-panics:" + normMsg(pv), fmt.Sprintf("%s: %v", where, pv)}
 	}
 	if e != nil {
 		s.bc = nil
-		return &outcome{"sync:node-start-fails:" + where + ":" + normMsg(e), e.Error()}
+		if strings.Contains(e.Error(), "could not get header "+s.src.hdr[0].Hash().StringLE()) {
+			// start-up walks the header chain down to the genesis header, which the
+			// state jump removed (chains below one header-hash page, sync point
+			// above MaxTraceableBlocks)
+			return &outcome{"sync:node-cannot-start-after-state-jump:header-walk-needs-the-removed-genesis-header", fmt.Sprintf("%s: %v (header height below 2000, sync point %d > MaxTraceableBlocks %d)", where, e, s.p, s.src.mtb)}
+		}
+		return &outcome{"sync:node-start-fails:" + normMsg(e), fmt.Sprintf("%s: %v", where, e)}
 	}
 	s.mod = s.bc.GetStateSyncModule()
 	if s.mod.IsActive() && !s.mod.IsInitialized() {
 		err, pv := guard(func() error { return s.mod.Init(s.rem) })
 		if pv != nil {
-			return &outcome{"sync:Init-panics:" + where + ":" + normMsg(pv), fmt.Sprintf("Module.Init(%d) on the reopened node: panic: %v", s.rem, pv)}
+			return &outcome{"sync:Init-panics-on-partially-synced-store:" + normMsg(pv), fmt.Sprintf("%s: Module.Init(%d) panics: %v", where, s.rem, pv)}
 		}
 		if err != nil {
-			return &outcome{"sync:Init-fails:" + where + ":" + normMsg(err), fmt.Sprintf("Module.Init(%d): %v", s.rem, err)}
+			return &outcome{"sync:Init-fails-on-partially-synced-store:" + normMsg(err), fmt.Sprintf("%s: Module.Init(%d): %v", where, s.rem, err)}
 		}
 		if s.mod.IsActive() && s.mod.GetStateSyncPoint() != s.p {
 			return &outcome{"sync:wrong-sync-point:" + where, fmt.Sprintf("Init(%d) chose point %d, expected %d", s.rem, s.mod.GetStateSyncPoint(), s.p)}
@@ -319,6 +416,22 @@ func (s *syncer) close() {
 		_, _ = guard(func() error { s.bc.Close(); return nil })
 		s.bc = nil
 	}
+}
+
+// reopenDB closes and reopens the database file of a disk backend.
+func (s *syncer) reopenDB() *outcome {
+	if s.dir == "" {
+		return nil
+	}
+	if err := s.st.RealClose(); err != nil {
+		return &outcome{"sync:database-close-fails", err.Error()}
+	}
+	inner, err := vchain.NewBackend(s.sc.Backend, s.dir)
+	if err != nil {
+		return &outcome{"sync:database-reopen-fails", err.Error()}
+	}
+	s.st.Inner = inner
+	return nil
 }
 
 func (s *syncer) initStorageSync() *outcome {
@@ -378,6 +491,9 @@ func (s *syncer) restart(stage string) *outcome {
 	s.op("restart@%s(remote=%d)", stage, s.rem)
 	s.restarts[stage]++
 	s.close()
+	if o := s.reopenDB(); o != nil {
+		return o
+	}
 	if o := s.open("after-restart-in-" + stage + "-stage"); o != nil {
 		return o
 	}
@@ -482,7 +598,7 @@ func (s *syncer) headersStage() *outcome {
 		if !s.sc.Chaos || x < 6 {
 			// correct chunk with overlap (duplicates of known headers)
 			from := hh + 1
-			if ov := uint32(s.r.Intn(4)); ov < from {
+			if ov := uint32(s.r.Intn(4)); ov < from && from-ov >= max(1, s.sc.Trusted) {
 				from -= ov
 			}
 			to := min(s.src.n, hh+1+uint32(s.r.Intn(9)))
@@ -571,7 +687,15 @@ func (s *syncer) headersStage() *outcome {
 	if s.bc.HeaderHeight() <= s.p {
 		return &outcome{"sync:headers-stage-left-early", fmt.Sprintf("header height %d, sync point %d", s.bc.HeaderHeight(), s.p)}
 	}
-	return s.checkHeaders(0, s.bc.HeaderHeight(), true)
+	return s.checkHeaders(s.firstHeader(), s.bc.HeaderHeight(), true)
+}
+
+// firstHeader is the height below the first header the node has to hold.
+func (s *syncer) firstHeader() uint32 {
+	if s.sc.Trusted > 0 {
+		return s.sc.Trusted - 1
+	}
+	return 0
 }
 
 // ---------------------------------------------------------------------------
@@ -641,11 +765,16 @@ func (s *syncer) mptStage() *outcome {
 				s.wrong["node:"+kind]++
 				s.op("AddMPTNodes(bad %s)", kind)
 				batch := [][]byte{b}
-				if s.r.Intn(2) == 0 { // in front of a requested node: the rest of a failed batch may be dropped
+				if kind != "empty-node" && s.r.Intn(2) == 0 { // in front of a requested node: the rest of a failed batch may be dropped
 					batch = append(batch, s.td.nodes[need[s.r.Intn(len(need))]])
 				}
 				err, pv := guard(func() error { return s.mod.AddMPTNodes(batch) })
 				if pv != nil {
+					if kind == "empty-node" && len(batch) == 1 {
+						// the panic is raised before the module touches anything: go on
+						s.softViolation("sync:AddMPTNodes-panics:peer-sends-an-EmptyNode:"+normMsg(pv), fmt.Sprintf("AddMPTNodes([][]byte{{0x04}}): panic: %v", pv))
+						continue
+					}
 					return &outcome{"sync:AddMPTNodes-panics:wrong-data:" + kind + ":" + normMsg(pv), fmt.Sprint(pv)}
 				}
 				if err != nil {
@@ -662,7 +791,7 @@ func (s *syncer) mptStage() *outcome {
 		}
 		if s.sc.Chaos && s.r.Intn(12) == 0 {
 			// data of another stage, nobody asked for it
-			i := 1 + uint32(s.r.Intn(int(s.src.n)))
+			i := max(1, s.sc.Trusted) + uint32(s.r.Intn(int(s.src.n-max(1, s.sc.Trusted)+1)))
 			s.op("unsolicited AddHeaders(%d)/AddBlock(%d)", i, i)
 			hh := s.bc.HeaderHeight()
 			_, pv := guard(func() error { _ = s.mod.AddHeaders(s.src.hdr[i]); return s.mod.AddBlock(s.src.block(i)) })
@@ -712,7 +841,13 @@ func (s *syncer) mptStage() *outcome {
 					return &outcome{"sync:delivered-node-still-requested", fmt.Sprintf("node %s was delivered without error and is requested again", h.StringBE())}
 				}
 			}
-			if o := s.maybeRestart("data"); o != nil {
+			if s.sc.Late && !s.lateDone && len(need)-m <= 3 {
+				// once, when nearly the whole trie is stored
+				s.lateDone = true
+				if o := s.restart("data"); o != nil {
+					return o
+				}
+			} else if o := s.maybeRestart("data"); o != nil {
 				return o
 			}
 		}
@@ -740,9 +875,9 @@ func (s *syncer) storageStage() *outcome {
 		if pv != nil || err == nil {
 			return &outcome{"sync:wrong-state-root-accepted:wrong-index", fmt.Sprint(err, pv)}
 		}
-		if o := s.initStorageSync(); o != nil {
-			return o
-		}
+	}
+	if o := s.initStorageSync(); o != nil {
+		return o
 	}
 	items := s.td.items
 	pending := s.r.Perm(len(items))
@@ -886,7 +1021,7 @@ func (s *syncer) blocksStage() *outcome {
 		if s.sc.Chaos && s.r.Intn(3) == 0 {
 			kind := blockFaults[s.r.Intn(len(blockFaults))]
 			b := s.badBlock(next, kind)
-			if b == nil || (b.Index == next && b.Hash() == s.src.hdr[next].Hash()) {
+			if b == nil || (b.Index == next && bytes.Equal(vchain.EncodeBlock(b), s.src.h.P.Raw[next-1])) {
 				continue
 			}
 			s.wrong["block:"+kind]++
@@ -989,6 +1124,16 @@ func (s *syncer) compareAtSyncPoint(where string) *outcome {
 			return &outcome{"sync:block-missing-after-sync", fmt.Sprintf("block %d: %v", i, err)}
 		}
 		if !bytes.Equal(vchain.EncodeBlock(b), s.src.h.P.Raw[i-1]) {
+			bodies := 0
+			for _, tx := range b.Transactions {
+				if len(tx.Script) > 0 {
+					bodies++
+				}
+			}
+			if i == s.p && len(b.Transactions) > 0 && bodies == 0 {
+				s.softViolation("sync:tip-block-read-after-state-jump-has-hash-only-transactions", fmt.Sprintf("GetBlock of the sync point block %d right after the jump returns %d transactions without bodies (the cached top block is the trimmed block)", i, len(b.Transactions)))
+				continue
+			}
 			return &outcome{"sync:wrong-block-accepted:stored-bytes-differ", fmt.Sprintf("stored block %d differs from the source's bytes", i)}
 		}
 	}
@@ -1020,10 +1165,20 @@ func (s *syncer) lockstep() *outcome {
 			return &outcome{"sync:diverged-after-sync:" + n, fmt.Sprintf("height %d (sync point %d): %s", i, s.p, d)}
 		}
 		s.compared++
+		if (s.sc.GC > 0 && s.r.Intn(2) == 0) || s.r.Intn(1000) < s.sc.Flush {
+			s.op("flush")
+			s.flushes++
+			if err, pv := guard(func() error { return s.bc.VerifPersist() }); err != nil || pv != nil {
+				return &outcome{"sync:flush-fails:synced", fmt.Sprint(err, pv)}
+			}
+		}
 		if i < end && s.r.Intn(1000) < s.sc.Restart["synced"] {
 			s.op("restart@synced")
 			s.restarts["synced"]++
 			s.close()
+			if o := s.reopenDB(); o != nil {
+				return o
+			}
 			if o := s.open("after-restart-of-synced-node"); o != nil {
 				return o
 			}
